@@ -68,7 +68,7 @@ def token_points(meta):
 
 def gen_case(r, max_groups=3, max_yields=5, invalid_rate=0.08):
     """One scheduling configuration. Generator rules (side conditions for the pure-splice reading):
-    ranges never start in column 0; replaced text is empty (insertion) or non-blank; new text is a unique marker
+    only insertions start in column 0; replaced text is empty (insertion) or non-blank; new text is a unique marker
     (or '' for a deletion of non-blank text), has no newline/'#'/outer blanks."""
     src, meta = make_source(r)
     pts = token_points(meta)
@@ -87,7 +87,9 @@ def gen_case(r, max_groups=3, max_yields=5, invalid_rate=0.08):
             a = r.randrange(len(toks))
             kind = r.random()
             kind_boundary = True
-            if kind < 0.25:  # insertion at a token start or end
+            if kind < 0.07:  # insertion at the very start of a line (column 0: the marker joins the name that starts the line)
+                s = e = meta[li][0]
+            elif kind < 0.25:  # insertion at a token start or end
                 s = e = r.choice(toks[a])
             elif kind < 0.65:  # one token, or a token span
                 b = r.randrange(a, len(toks))
@@ -296,7 +298,7 @@ def suites(ctx):
 
     s1 = Suite("sched-random")
     r = ctx.rng("sched")
-    cases = [gen_case(r) for _ in range(ctx.n(1500, 40000))]
+    cases = [gen_case(r) for _ in range(ctx.n(8000, 40000))]
     run_cases(ctx, cases, s1)
     s1.note = ("random marker sources (1-4 lines, 20% ignored), 1-3 rule groups, 0-5 yields each: insertions, token spans, "
                "partial tokens, cross-line ranges, deletions, 15% re-yields (duplicates), 8% invalid replacements; "
@@ -304,12 +306,12 @@ def suites(ctx):
     out.append(s1)
 
     s2 = Suite("sched-exhaustive")
-    run_cases(ctx, list(exhaustive_cases(ctx.n(1500, 60000))), s2)
+    run_cases(ctx, list(exhaustive_cases(ctx.n(6000, 60000))), s2)
     s2.note = "enumeration of <=3 yields over 7 fixed ranges x {default,1,2} transaction x split into 2 groups (prefix of the enumeration in the quick tier)"
     out.append(s2)
 
     out.append(fixloop_suite(ctx))
-    out.append(oracle_suite(ctx, cases[: ctx.n(300, 5000)]))
+    out.append(oracle_suite(ctx, cases[: ctx.n(1500, 5000)]))
     return out
 
 
@@ -320,7 +322,7 @@ def fixloop_suite(ctx):
     s = Suite("fixloop")
     r = ctx.rng("fixloop")
     reqs, cfgs = [], []
-    for _ in range(ctx.n(150, 2000)):
+    for _ in range(ctx.n(600, 2000)):
         n = r.randint(1, 5)
         nxt = [r.randrange(n) for _ in range(n)]
         init = r.randrange(n)
